@@ -248,7 +248,9 @@ async fn client_step(log: &Log, port: u16, clients: &Shared, step: &Value, with_
                 b.extend(80877102i32.to_be_bytes());
                 b.extend(pid.to_be_bytes());
                 b.extend(key.to_be_bytes());
-                c.send_raw(&b, &[]).await;
+                // mix (additive): "splits": [byte offsets] sends the 16-byte CancelRequest in several TCP writes
+                let csplits: Vec<usize> = step.get("splits").and_then(|x| x.as_array()).map(|a| a.iter().map(|x| x.as_u64().unwrap_or(0) as usize).collect()).unwrap_or_default();
+                c.send_raw(&b, &csplits).await;
                 mockpg::log_event(log, json!({"who": cname, "ev": "cancel_sent", "pid": pid, "key": key}));
                 // wait for pgcat to close the connection (it does after forwarding)
                 let _ = c.recv("Z", 1, step["timeout_ms"].as_u64().unwrap_or(500), false).await;
@@ -435,6 +437,15 @@ async fn run(scn: Value) -> Value {
                 std::fs::write(&ctx.cfg_path, subst(step["toml"].as_str().unwrap_or(""), &ctx.backends)).unwrap();
                 mockpg::log_event(&log, json!({"who": "harness", "ev": "config_written"}));
             }
+            // C18 (additive): start one more real statistics Collector the way main.rs does.  The first tick of its
+            // interval fires at once: an end of the statistics period (update_averages + reset_current_counts for
+            // every address with a registered server) happens NOW instead of 15 s after the start.
+            "collector" => {
+                let mut c = pgcat::stats::Collector::default();
+                c.collect().await;
+                tokio::time::sleep(std::time::Duration::from_millis(step["settle_ms"].as_u64().unwrap_or(30))).await;
+                mockpg::log_event(&log, json!({"who": "harness", "ev": "collector_started"}));
+            }
             "reload" => {
                 let r = pgcat::config::reload_config(ctx.pooler.as_ref().unwrap().client_server_map.clone()).await;
                 mockpg::log_event(&log, json!({"who": "harness", "ev": "reload", "result": format!("{:?}", r)}));
@@ -500,6 +511,18 @@ async fn run(scn: Value) -> Value {
                     while ctx.pooler.as_ref().unwrap().client_server_map.lock().contains_key(&(pid, key)) != want && (t0.elapsed().as_millis() as u64) < to {
                         tokio::time::sleep(std::time::Duration::from_millis(2)).await;
                     }
+                }
+            }
+            "drain_stall" => {
+                // C10: the main loop stops / resumes reading the client accounting channel (see pooler::drain_stall)
+                let on = step["on"].as_bool().unwrap_or(true);
+                if !on {
+                    // logged BEFORE the release: whatever the released tasks do is logged after it
+                    mockpg::log_event(&log, json!({"who": "harness", "ev": "drain_stall", "on": false, "filled": 0}));
+                }
+                let filled = pooler::drain_stall(on).await;
+                if on {
+                    mockpg::log_event(&log, json!({"who": "harness", "ev": "drain_stall", "on": true, "filled": filled}));
                 }
             }
             "hook" => {
@@ -583,6 +606,22 @@ async fn run(scn: Value) -> Value {
                 if got != want {
                     mockpg::log_event(&log, json!({"who": "harness", "ev": "wait_inuse_timeout", "want": want, "got": got}));
                 }
+            }
+            "wait_clients" => {
+                // mix (additive, synchronisation only): wait until exactly n non-admin clients are registered in the client
+                // statistics (pool name != "pgcat"), or timeout; the values seen last are logged
+                let want = step["n"].as_u64().unwrap_or(0) as usize;
+                let to = step["timeout_ms"].as_u64().unwrap_or(1500);
+                let t0 = std::time::Instant::now();
+                let mut got;
+                loop {
+                    got = pgcat::stats::get_client_stats().values().filter(|c| c.pool_name() != "pgcat").count();
+                    if got == want || (t0.elapsed().as_millis() as u64) >= to {
+                        break;
+                    }
+                    tokio::time::sleep(std::time::Duration::from_millis(2)).await;
+                }
+                mockpg::log_event(&log, json!({"who": "harness", "ev": "wait_clients", "want": want, "got": got, "label": step["label"], "ms": t0.elapsed().as_millis() as u64}));
             }
             "wait_waiting" => {
                 // C04 (additive): wait until exactly n registered clients are in state "waiting" (inside pool.get()), or timeout
